@@ -17,7 +17,7 @@ impl Rng {
         if n == 0 { 0 } else { self.next() % n }
     }
     pub fn range(&mut self, lo: u64, hi_incl: u64) -> u64 {
-        lo + self.below(hi_incl - lo + 1)
+        lo + self.below((hi_incl - lo).saturating_add(1))
     }
     pub fn pick<'a, T>(&mut self, xs: &'a [T]) -> &'a T {
         &xs[self.below(xs.len() as u64) as usize]
@@ -67,7 +67,8 @@ impl Out {
 }
 
 pub fn silence_panics() {
-    std::panic::set_hook(Box::new(|_| {}));
+    // panics of the implementation are caught and reported by the oracles; DDSX_PANIC=1 shows where they come from
+    if std::env::var("DDSX_PANIC").is_ok() { std::panic::set_hook(Box::new(|i| eprintln!("panic: {i}"))); } else { std::panic::set_hook(Box::new(|_| {})); }
 }
 
 /// Runs `f`, returning None if it panicked.
